@@ -111,6 +111,16 @@ func (t *Tagged) UnmarshalText(b []byte) error {
 	return nil
 }
 
+// Tree is a recursive element type (through a slice, which pointerification
+// does not descend into): values of it can be nested far deeper than any
+// config type.
+type Tree struct {
+	Label string
+	Vals  []int
+	M     map[string]int
+	Sub   []Tree
+}
+
 // Pt is a small struct used as an element of collections.
 type Pt struct {
 	X, Y int
@@ -185,6 +195,7 @@ var baseTypes = map[string]reflect.Type{
 	"Color":         reflect.TypeOf(Color("")),
 	"Stamp":         reflect.TypeOf(Stamp{}),
 	"Tagged":        reflect.TypeOf(Tagged{}),
+	"Tree":          reflect.TypeOf(Tree{}),
 	"Pt":            reflect.TypeOf(Pt{}),
 	"Rec":           reflect.TypeOf(Rec{}),
 	"EmbA":          reflect.TypeOf(EmbA{}),
